@@ -20,7 +20,7 @@ func init() {
 func checkC17(c *Ctx) {
 	r171(c, "R17.1 bounded-prompt-waits")
 	r171b(c)
-	r172(c)
+	r172(c, "R17.2 disposal-chain")
 	r173(c)
 	// a wait performed while a lock is held makes every command that needs that lock wait as long (list, resume, remove
 	// and the rollout commands must return without waiting): shared with C18
@@ -241,8 +241,7 @@ func (c *Ctx) durationArgsAgreeResolved(rule string, fns []*ssa.Function) {
 	}
 }
 
-func r172(c *Ctx) {
-	const rule = "R17.2 disposal-chain"
+func r172(c *Ctx, rule string) {
 	c.floor(rule, 5)
 	sd := c.method("Service", "Dispose")
 	lbd := c.method("LoadBalancer", "Dispose")
